@@ -82,7 +82,18 @@ def check(ctx):
                           f"re-read after the lock then fails with KeyError")
             continue
         # the key must be the loop variable of `for K, E in cache_entry.items()` and the entry's lock slot must be None
-        loop = enclosing(st, (ast.For,), stop=fn)
+        # (the key may reach the `del` through locals - a "decide" helper that returns the key to evict, spliced in by the engine)
+        from .common import origin_of
+        from sa.engine.facts import strip_cast
+        kx = keyexpr
+        for _ in range(4):
+            k2 = strip_cast(origin_of(fn, strip_cast(kx)))
+            if k2 is kx:
+                break
+            kx = k2
+        keyexpr = kx
+        loop = next((n_ for n_ in own_walk(fn) if isinstance(n_, ast.For) and isinstance(n_.target, ast.Tuple) and len(n_.target.elts) == 2
+                     and isinstance(n_.target.elts[0], ast.Name) and isinstance(keyexpr, ast.Name) and n_.target.elts[0].id == keyexpr.id), None)
         ok_loop = False
         ent = None
         if loop is not None and isinstance(loop.target, ast.Tuple) and len(loop.target.elts) == 2 and isinstance(keyexpr, ast.Name) \
@@ -290,15 +301,13 @@ def check(ctx):
             return st
         if e == "store":
             return (True, inc, tested, ndel, ndec)
-        if not stored:
-            if e in ("inc",):
-                return Bad("the size counter is incremented before the result is stored (the counter would count an entry that may never complete)")
-            if e == "evict":
-                return Bad("an entry is evicted before this call's result exists (eviction must follow the insertion in the same atomic section)")
-            return st
         if e == "susp":
-            if not (inc and tested):
-                return Bad("a suspension point separates the store of the result from the size accounting/eviction (another task can observe more than maxsize results)")
+            # store, count, size test and eviction are one atomic section, in whatever order its statements are written: a suspension
+            # point may not fall between any two of them (counting before the computation, evicting before the result exists, ...)
+            if (stored or inc or ndel) and not (stored and inc and tested):
+                what = "the store of the result" if stored else ("the increment of the size counter" if inc else "an eviction")
+                return Bad(f"a suspension point separates {what} from the rest of the insertion (store, size accounting, size test, eviction): "
+                           "another task can observe more than maxsize results / an entry is counted or evicted for a result that may never exist")
             return st
         if e == "inc":
             return (stored, min(inc + 1, 3), tested, ndel, ndec)
@@ -352,7 +361,12 @@ def check(ctx):
                   instance="store, count, size test and eviction form one atomic section")
     for kind, st, keyexpr in removals:
         if kind == "del":
-            ctx.require_at("R20-d", call, st, [["self._maxsize < self._currsize"]], instance="eviction only when more than maxsize results are retained",
+            # (the decrement that belongs to the eviction may be written before the `del`: the size test is required where the pair begins)
+            par_ = getattr(st, "_parent", None)
+            sibs = next((getattr(par_, fl) for fl in ("body", "orelse", "finalbody") if isinstance(getattr(par_, fl, None), list) and st in getattr(par_, fl)), [st])
+            pair = [x for x in sibs if x is st or find_all("self._currsize -= 1", x)]
+            first = min(pair, key=lambda n: (n.lineno, n.col_offset))
+            ctx.require_at("R20-d", call, first, [["self._maxsize < self._currsize"]], instance="eviction only when more than maxsize results are retained",
                            what="eviction")
     # counter writers
     incs = ctx.sites(call, "self._currsize += 1")
@@ -374,12 +388,15 @@ def check(ctx):
     ctx.need("R20-e", call, "hit sites (`self._hits += 1`)", len(hits), 2)
 
     def step_e(st, e, c):
+        # a hit is counted and the entry's position refreshed in one synchronous section, in either order
         if c.is_exc:
             return st
         if e == "hit":
-            return "hit"
-        if e == "mte" and st == "hit":
-            return "moved"
+            return "moved" if st == "mte-first" else "hit"
+        if e == "mte":
+            return "moved" if st == "hit" else "mte-first"
+        if e == "susp" and st == "mte-first":
+            return ""
         return st
 
     def at_exit_e(kind, st, facts):
@@ -387,7 +404,8 @@ def check(ctx):
             return "a cache hit returns without refreshing the entry's LRU position (move_to_end)"
         return None
 
-    ctx.paths("R20-e", call, [("hit", "self._hits += 1"), ("mte", f"{CE}.move_to_end({KEY})")], step_e, "", at_exit_e, instance="hits refresh the LRU position")
+    ctx.paths("R20-e", call, [("hit", "self._hits += 1"), ("mte", f"{CE}.move_to_end({KEY})"), ("susp", [is_susp])], step_e, "", at_exit_e,
+              instance="hits refresh the LRU position")
     rets = [n for n in own_walk(fn) if isinstance(n, ast.Return) and n.value is not None and CV in {x.id for x in ast.walk(n.value) if isinstance(x, ast.Name)} and not in_lock(n)]
     ctx.need("R20-e", call, "the early `return cached_value` of a hit", len(rets), 1)
     for r in rets:
